@@ -844,7 +844,17 @@ impl Model<Rust> {
             let rust_role =
                 Self::definition_type_to_rust_type(&rust_name, &field.role.r#type, tag, ctxt);
             let rust_role = if let Some(def) = &field.role.default {
-                RustType::Default(Box::new(rust_role.no_option()), def.clone())
+                // the rust model refers to enumerated variants by their rust names
+                let def = match def {
+                    LiteralValue::EnumeratedVariant(r#type, variant) => {
+                        LiteralValue::EnumeratedVariant(
+                            ctxt.struct_or_enum_name(r#type),
+                            ctxt.variant_name(variant),
+                        )
+                    }
+                    def => def.clone(),
+                };
+                RustType::Default(Box::new(rust_role.no_option()), def)
             } else if extension_after.map(|e| index > e).unwrap_or(false)
                 && !rust_role.is_optional()
             {
